@@ -32,6 +32,11 @@ RULE = ("texts: (a) every ordered pair of textual binary operators of the engine
         "prefix/suffix/left/right; with and without create_group; aliases); every call is compared with the "
         "insert_operator model and the contract on groups, and the engine's trees with the table the CALL SEQUENCE "
         "describes (not factory.operators read back). "
+        "Inserted symbols include word-shaped ones over the whole \\w alphabet (underscore, digits, mixed case, non-ASCII "
+        "letters) in all four roles; every generated text remembers its pieces and the real lexer must turn every "
+        "table symbol among them into its operator token. Factory histories: create() calls interleaved with "
+        "insert_operator calls on ONE factory object (fixed + 30 %% of the random sequences); every engine created on "
+        "the way is checked, after the whole history ran, against the table of its creation time. "
         "non-trivial = the text holds >= 2 operator tokens (binary/prefix/suffix/index) outside brackets of each "
         "other, i.e. precedence or associativity decides something; distinct = distinct (operator list, token list)")
 TRUSTED = ["Model/Pratt.v (precedence climbing with the yacc rank rule) stands in for ply's LALR(1) tables with "
@@ -1149,15 +1154,15 @@ def texts_for(run, eng, idx):
         for t in gen_random(eng, rng, run.n(500, 10000)):
             yield "random", t
     elif not eng.calls and not view:                # the other factory kinds (delegates, keyword operator variants)
-        for t in gen_pairs(eng, rng, 2, 1, sample=run.n(500, 7000)):
+        for t in gen_pairs(eng, rng, 2, 1, sample=run.n(300, 7000)):
             yield "%s pairs" % eng.kind, t
-        for t in gen_random(eng, rng, run.n(400, 8000)):
+        for t in gen_random(eng, rng, run.n(300, 8000)):
             yield "%s random" % eng.kind, t
     else:
         tag = "earlier engine of a factory history" if view else "custom"
-        for t in gen_pairs(eng, rng, 2, 1, sample=run.n(60, 600)):
+        for t in gen_pairs(eng, rng, 2, 1, sample=run.n(30 if view else 60, 600)):
             yield tag + " pairs", t
-        for t in gen_random(eng, rng, run.n(60, 1400)):
+        for t in gen_random(eng, rng, run.n(40 if view else 60, 1400)):
             yield tag + " random", t
 
 
